@@ -22,7 +22,7 @@ func VerifMatchesDateZone(y, m, d, hh, mi, off int, dateStr, cmp string) bool {
 	return matchesDate(time.Date(y, time.Month(m), d, hh, mi, 0, 0, time.FixedZone("", off)), dateStr, cmp)
 }
 
-func VerifEvalTokensZone(seq int, uid int64, flags string, y, m, d, hh, mi, off int, tokens []string) bool {
-	return evaluateTokens(messageInfo{seqNum: seq, uid: uid, flags: flags,
+func VerifEvalTokensZone(seq int, uid int64, maxSeq int, maxUID int64, flags string, y, m, d, hh, mi, off int, tokens []string) bool {
+	return evaluateTokens(messageInfo{seqNum: seq, uid: uid, flags: flags, maxSeqNum: maxSeq, maxUID: maxUID,
 		internalDate: time.Date(y, time.Month(m), d, hh, mi, 0, 0, time.FixedZone("", off))}, tokens, "US-ASCII", 0, nil)
 }
